@@ -19,7 +19,7 @@ from h2lib import Case, DialSpec, response, good_headers, key_of, run_real, opts
 from simnet_h2 import hx, hopt, Net
 
 SCHEMES = ["ws", "wss"]
-HOSTS = ["example.com", "192.0.2.7", "[2001:db8::1]"]
+HOSTS = ["example.com", "192.0.2.7", "[2001:db8::1]", "chat.example.com."]      # (the last: fully qualified, with the root label)
 PORTS = [None, 80, 443, 8080, 1, 65535]
 PATHS = ["", "/", "/a/b", "/a;p=1/b;q=2", "/app;jsessionid=X"]
 QUERIES = [None, "x=1&y"]
